@@ -80,6 +80,8 @@ func trafficAround(e chain.Event) (pre, post []chain.Event) {
 		// historical reads: a custom query and a store query one and two blocks back
 		chain.Event{Kind: "query", Path: "/custom/pos/validators", Data: []byte(`{"Page":1,"Limit":100}`), Height: -1},
 		chain.Event{Kind: "query", Path: "/custom/auth/supply", Height: -2},
+		chain.Event{Kind: "query", Path: "/custom/pos/validator", Data: []byte(fmt.Sprintf(`{"Address":"%s"}`, chain.Addr(0))), Height: -2},
+		chain.Event{Kind: "query", Path: "/custom/pos/validators", Data: []byte(`{"Page":1,"Limit":100}`), Height: -3},
 		chain.Event{Kind: "query", Path: "/store/auth/key", Data: append([]byte{0x01}, chain.Addr(3)...), Height: -1},
 	)
 	return
@@ -393,6 +395,8 @@ func init() {
 			p4.MaxValidators = 10
 			all4.Pos = &p4
 			scs = append(scs, Scenario{Name: "4val-all-in-set-many-leavers", Cfg: all4, Alphabet: many, K: k, D: d - 1, Tail: 1})
+			// a single miss jails: jailed validators that are slashed, queried at past heights and read again
+			scs = append(scs, Scenario{Name: "3val-jail-fast", Cfg: cfgJailFast(), Alphabet: jailFastAlphabet(), K: k, D: d, Tail: 2})
 			// a block gas limit that the second or third transaction of a block crosses (the limit lives in
 			// the consensus parameters, which a reopened instance has to find again)
 			gl := gs[0]
